@@ -369,3 +369,57 @@ def replay_trip(rp):
                 why = trip_check(p, mm, rp["format"], seq)
                 return why is None, why or "trip ok"
     return False, "message of the replay could not be rebuilt"
+
+
+def monitor_receive_paths(ctx, prop="C06", n_streams=None):
+    """the third sentence of C06 on the real code: packets produced by the real encoder (every format a client reads: EByte, Yacht Devices,
+    Waveshare USB), concatenated and cut into reads at arbitrary places, go through the real client's receive path; what the callback gets
+    must be what a decoder returns for the packets one by one"""
+    harness.load_repo()
+    import clientcorr
+    import deccorr
+    from nmea2000.encoder import NMEA2000Encoder
+    msgs, rnd = decoded_messages(ctx, 1, 76)
+    n_streams = n_streams or (45 if ctx["tier"] == "quick" else 600)
+    hits, n = [], 0
+    for t in range(n_streams):
+        kind = ("ebyte", "yd", "waveshare")[t % 3]
+        enc = NMEA2000Encoder()
+        fn = {"ebyte": enc.encode_ebyte, "yd": enc.encode_yacht_devices, "waveshare": enc.encode_usb}[kind]
+        packets = []
+        for sfx, p, m in rnd.sample(msgs, min(len(msgs), 12)):
+            mm = copy.deepcopy(m)
+            mm.priority, mm.source, mm.destination = addressing(rnd, p["PGN"])
+            try:
+                packets += [bytes(x) for x in fn(mm)]
+            except Exception:
+                continue
+            if len(packets) >= rnd.choice([2, 6, 14]):
+                break
+        if not packets:
+            continue
+        n += len(packets)
+        stream = b"".join(packets)
+        mode = rnd.choice(["one", "all", "rand", "rand", "marker"])
+        reads = clientcorr.c12_segment(rnd, stream, mode)
+        sim = clientcorr.c12_session(kind, packets, reads, "ok")
+        exp = clientcorr.reference_outputs(kind, packets)
+        got = [deccorr.canon_msg(m) for m in sim.cb_log]
+        if exp != got:
+            hits.append({"key": f"{prop}/receive-path/{kind}", "what": f"{kind} client: {len(packets)} encoder packets as one stream cut into {len(reads)} reads ({mode}): the callback received {len(got)} "
+                                                                       f"messages, a decoder returns {len(exp)} for the packets" + ("" if len(exp) != len(got) else " (same count, different content)"),
+                         "replay": {"kind": "receive-path", "client": kind, "packets": [x.hex() for x in packets], "reads": [r.hex() for r in reads]}})
+            break
+    return hits, n
+
+
+def replay_receive_path(rp):
+    harness.load_repo()
+    import clientcorr
+    import deccorr
+    packets = [bytes.fromhex(x) for x in rp["packets"]]
+    reads = [bytes.fromhex(x) for x in rp["reads"]]
+    sim = clientcorr.c12_session(rp["client"], packets, reads, "ok")
+    exp = clientcorr.reference_outputs(rp["client"], packets)
+    got = [deccorr.canon_msg(m) for m in sim.cb_log]
+    return exp == got, f"{rp['client']} client: callback received {len(got)} messages, a decoder returns {len(exp)} for the {len(packets)} packets"
